@@ -60,6 +60,8 @@ type interpreter struct {
 	work       [][]decision
 	job        job
 	violations []violation
+	witnesses    []violation
+	maxWitnesses int
 	sch        *schedState
 	extCache   map[*ssa.Function]externalFn
 	fnSize     map[*ssa.Function]int
